@@ -145,14 +145,12 @@ theorem accti_step_seqRound (gas : Nat) (ih : AcctI gas) :
       · split at h
         · cases h
         · split at h
-          · cases h
-          · split at h
-            · simp only [pure_eq_ok] at h; subst h; exact TakenI.refl ..
-            · obtain ⟨r', hr', h⟩ := bind_ok _ _ _ h
-              simp only [pure_eq_ok] at h; subst h
-              simp only [Option.map_eq_some_iff] at hv
-              obtain ⟨l, hl, rfl⟩ := hv
-              exact (ih.seqRound _ _ _ _ _ r' hreg.2 hr' l hl).mono mem_app_right (by simp [itemsOfList, itemsOf])
+          · simp only [pure_eq_ok] at h; subst h; exact TakenI.refl ..
+          · obtain ⟨r', hr', h⟩ := bind_ok _ _ _ h
+            simp only [pure_eq_ok] at h; subst h
+            simp only [Option.map_eq_some_iff] at hv
+            obtain ⟨l, hl, rfl⟩ := hv
+            exact (ih.seqRound _ _ _ _ _ r' hreg.2 hr' l hl).mono mem_app_right (by simp [itemsOfList, itemsOf])
     · cases h
     · rename_i r0 hr0
       have h0 := ih.parseP _ _ _ _ hreg.1 hr0
